@@ -1,7 +1,7 @@
 """C14 — Garbage collection never changes build outcomes (target.go, function.go, sourceFile.go, project.go, project_index.go)."""
 import build_common
 
-RULE = ('histories with target / source removals and additions and `gc` (index-only load, as `dawn gc`, or full load) at arbitrary points, stray temporaries left by crashes; a label whose record was collected is never re-created. Judge: gc changes nothing outside .dawn/build; the decoded record of every live label is unchanged; no record of a dead label and no temporary remains; index.json stays; the twin history without the collections executes the same bodies with the same results in every build. Correspondence as for C01, plus targetInfoPath value by value on random labels (kinds, packages and names over reserved, escaped and non-ASCII bytes). A share of the histories (2 in 5) run in a project whose root is opened through a symbolic link or whose .dawn is a symbolic link to a directory elsewhere. Round 2: stray files and directories are dropped into .dawn/build/temp before collections and interrupted record saves leave real temporaries; same-process sequences Load -> Run... -> GC (-> Run) on ONE project object (fresh and after an earlier build): every record a Run of the process wrote is still a success record after GC, and a fresh build afterwards executes nothing. Round 3: (a) template gc-broken: a collection (index-preferring load) while the BUILD.dawn of a package, mostly a sub-package, ends in a syntax error, then the file is repaired and the tree is built again — the collection must fail without touching a record, or keep every record of what exists after the repair; (b) about one project in seven declares MODE = parse_flag("mode", default="std") in the root package and names one or two root-package targets "<name>_" + MODE; every load of such a history (builds, gc, index loads, fingerprint loads) is given --mode=alt, so a load that forgets the arguments sees other targets.')
+RULE = ('histories with target / source removals and additions and `gc` (index-only load, as `dawn gc`, or full load) at arbitrary points, stray temporaries left by crashes; a label whose record was collected is never re-created. Judge: gc changes nothing outside .dawn/build; the decoded record of every live label is unchanged; no record of a dead label and no temporary remains; index.json stays; the twin history without the collections executes the same bodies with the same results in every build. Correspondence as for C01, plus targetInfoPath value by value on random labels (kinds, packages and names over reserved, escaped and non-ASCII bytes). A share of the histories (2 in 5) run in a project whose root is opened through a symbolic link or whose .dawn is a symbolic link to a directory elsewhere. Round 2: stray files and directories are dropped into .dawn/build/temp before collections and interrupted record saves leave real temporaries; same-process sequences Load -> Run... -> GC (-> Run) on ONE project object (fresh and after an earlier build): every record a Run of the process wrote is still a success record after GC, and a fresh build afterwards executes nothing. Round 3: (a) template gc-broken: a collection (index-preferring load) while the BUILD.dawn of a package, mostly a sub-package, ends in a syntax error, then the file is repaired and the tree is built again — the collection must fail without touching a record, or keep every record of what exists after the repair; (b) about one project in seven declares MODE = parse_flag("mode", default="std") in the root package and names one or two root-package targets "<name>_" + MODE; every load of such a history (builds, gc, index loads, fingerprint loads) is given --mode=alt, so a load that forgets the arguments sees other targets. Round 4: about one project in three has two targets of one package whose names are a proper prefix of one another (`t3`, `t3_docs`); template prefix-gc: build both, remove the shorter one, collect: its record has to go.')
 
 
 def run(c):
